@@ -422,6 +422,14 @@ def run(ctx):
 
     def len_tested_after(g, bb, key):
         lens = [l_.bb for l_ in g.sites() if re.search(STR_LEN, l_.callee) and l_.args and okey(g, l_.args[0]) == key]
+        # ... or a helper of the crate that is handed the same string and tests its length itself (`enforce_cap(target, max)`)
+        for c_ in g.sites():
+            H = P.fns.get(c_.callee or '')
+            if H is None or H.crate != 'rip_tui' or '{closure' in H.path:
+                continue
+            for k_, a_ in enumerate(c_.args):
+                if okey(g, a_) == key and any(re.search(STR_LEN, l2.callee) and l2.args and H.root_local(l2.args[0], through_calls=THROUGH) == k_ + 1 for l2 in H.sites()):
+                    lens.append(c_.bb)
         rets = g.returns()
         return bool(lens) and (not rets or g.must_pass(lens, bb, rets))
 
